@@ -270,7 +270,7 @@ def lint_model(r):
     for _ in range(r.randint(0, 4)):
         name = r.choice(FNAMES)
         later = FNAMES[FNAMES.index(name) + 1:]
-        args = None if r.random() < 0.15 else [r.choice(['p', 'q', 'p', 'a']) for _ in range(r.randint(1, 3))]
+        args = None if r.random() < 0.15 else [r.choice(['p', 'q', 'p', 'a', '_', '_', '_u']) for _ in range(r.randint(1, 4))]
         local_names = ['a', 'b', 'p', 'q', 'x']
         # local variables may hold function values and be called (a call is a use of the name)
         callables = later + ['systemLog'] + (['a', 'u'] if r.random() < 0.5 else [])
